@@ -276,6 +276,26 @@ def r3_classification(ctx, cls, order, unguarded_ok=()):
 
 
 # ------------------------------------------------------------------------------- R4 keys
+def key_source(e, M):
+    """the key K when expression `e` is a read of M[K] that yields None for a missing key (or a plain M[K]), else None"""
+    if isinstance(e, ast.Call) and isinstance(e.func, ast.Attribute) and e.func.attr == "get" and U(e.func.value) == M and e.args \
+            and isinstance(e.args[0], ast.Constant) and not e.keywords:
+        if len(e.args) == 1 or (isinstance(e.args[1], ast.Constant) and e.args[1].value is None):
+            return e.args[0].value
+        return None
+    if isinstance(e, ast.Subscript) and U(e.value) == M and isinstance(e.slice, ast.Constant):
+        return e.slice.value
+    if isinstance(e, ast.IfExp):
+        for body, other, t in ((e.body, e.orelse, True), (e.orelse, e.body, False)):
+            if isinstance(other, ast.Constant) and other.value is None and isinstance(body, ast.Subscript) and U(body.value) == M \
+                    and isinstance(body.slice, ast.Constant):
+                k = body.slice.value
+                tt = U(e.test)
+                if (t and tt == "%r in %s" % (k, M)) or (not t and tt == "%r not in %s" % (k, M)):
+                    return k
+    return None
+
+
 class Read:
     def __init__(self, path, node, func, guarded):
         self.path = path
@@ -296,6 +316,24 @@ def key_reads(ctx, cls, gr):
             return e.value
         if isinstance(e, ast.Attribute) and isinstance(e.value, ast.Name) and e.value.id == "self" and e.attr in consts:
             return consts[e.attr]
+        return None
+
+    def key_display(e, f):
+        """the string constants of a tuple/list display, written in place or as a class / module constant"""
+        if isinstance(e, ast.Attribute) and isinstance(e.value, ast.Name) and e.value.id in ("self", "cls", cls.split(".")[-1]):
+            for st in c.node.body:
+                if isinstance(st, ast.Assign) and any(isinstance(t, ast.Name) and t.id == e.attr for t in st.targets):
+                    e = st.value
+                    break
+        elif isinstance(e, ast.Name):
+            mod = ctx.repo.modules.get(f.file) if hasattr(ctx.repo, "modules") else None
+            tree = getattr(mod, "tree", None) if mod is not None else None
+            for st in (tree.body if tree is not None else []):
+                if isinstance(st, ast.Assign) and any(isinstance(t, ast.Name) and t.id == e.id for t in st.targets):
+                    e = st.value
+                    break
+        if isinstance(e, (ast.Tuple, ast.List)) and e.elts and all(isinstance(x, ast.Constant) and isinstance(x.value, str) for x in e.elts):
+            return [x.value for x in e.elts]
         return None
 
     def path_of(e, env):
@@ -339,10 +377,14 @@ def key_reads(ctx, cls, gr):
                         env.setdefault("__keys__", {}).setdefault(n.targets[0].id, [])
                         if k not in env["__keys__"][n.targets[0].id] and k != "":
                             env["__keys__"][n.targets[0].id].append(k)
-                elif isinstance(n, ast.For) and isinstance(n.target, ast.Name):
+                elif isinstance(n, (ast.For, ast.comprehension)) and isinstance(n.target, ast.Name):
                     p = path_of(n.iter, env)
                     if p is not None:
                         env.setdefault(n.target.id, p)
+                    ks = key_display(n.iter, f)
+                    if ks:
+                        # `for key in ("operand1", "operand2", ..)`: the loop variable is one of these keys
+                        env.setdefault("__keys__", {})[n.target.id] = list(ks)
         for n in ast.walk(f.node):
             p = None
             node = n
@@ -359,8 +401,15 @@ def key_reads(ctx, cls, gr):
                 facts = [U(e) for e, pol in C.facts_at(n) if pol]
                 key_txt = "'%s' in " % p[-1] if p else "?"
                 is_get = isinstance(n, ast.Call)      # `.get(key[, default])` tolerates a missing key like an `in` test does
-                reads.append(Read(p, node, f, any(x.startswith(key_txt) or ("self.%s_id in " % p[-1]) in x for x in facts)
-                                  or isinstance(n, ast.Compare) or is_get))
+                guarded = any(x.startswith(key_txt) or ("self.%s_id in " % p[-1]) in x for x in facts) or isinstance(n, ast.Compare) or is_get
+                if p and "|" in p[-1] and isinstance(getattr(n, "slice", None), ast.Name):
+                    # a key variable: one read per key it can hold; `if key in result` guards it
+                    kv = n.slice.id
+                    guarded = guarded or any(x.startswith("%s in " % kv) for x in facts)
+                    for alt in p[-1].split("|"):
+                        reads.append(Read(p[:-1] + (alt,), node, f, guarded))
+                else:
+                    reads.append(Read(p, node, f, guarded))
         # calls to other process_* methods: bind their first parameter
         for n in ast.walk(f.node):
             if isinstance(n, ast.Call) and isinstance(n.func, ast.Attribute) and isinstance(n.func.value, ast.Name) \
